@@ -711,7 +711,7 @@ def streams(ctx):
                            'int / float / bool, empty containers, key orders): implementation vs model + reflexive, antisymmetric, range, null least, '
                            'cross-type by name, same-type order (one level of the definition unfolded) and datetime normalised order on every pair; transitivity on triples; non-trivial = two different pool entries')
     rng = ctx.rng('cmp')
-    pool = build_pool(rng, ctx.scale(300, 700))
+    pool = build_pool(rng, ctx.scale(300, 640))
     corpus_vals = []
     for c in corpus:
         if c.get('kind') == 'values':
@@ -776,7 +776,7 @@ def streams(ctx):
                                '(oracle) and against the model; int/float re-spelling and dict key re-ordering leave every comparison unchanged; '
                                'non-trivial = two different values')
     prng = ctx.rng('relops')
-    npairs = ctx.scale(4000, 40000)
+    npairs = ctx.scale(4000, 24000)
     pairs = [(prng.randrange(n), prng.randrange(n)) for _ in range(npairs)]
     # bias towards pairs that compare equal or are close (same type)
     by_type = {}
